@@ -5,6 +5,11 @@ ROOT = os.path.dirname(os.path.dirname(os.path.abspath(__file__)))
 
 # id -> (technique, level text, level note, design ref)
 CLAIMED = {
+ "C06": ("grammar lint over the goyacc source parser/parser.y (own yacc reader: productions, alternatives, symbols, Go actions parsed with go/parser): value delivery, enumerator alternatives, canonical string decode, builder-stack balance fix-point, extension keyword literals, lexer keyword table vs %token list; plus SSA rules on meta.Builder (dropped add* errors, stored-but-unreadable fields), map-iteration order effects on the load path, and ordered-witness rule for sibling collections",
+         "Decides for every production of the grammar at once that each value-carrying symbol is used by its action, that string tokens reach the builder only through the decoder, that the builder stack is balanced and consistent across alternatives, and that the keyword tables agree; and for the builder that no insertion error is dropped, every stored field has a reader or consumer, and no load-path iteration over a map has an order-sensitive effect. Known findings (status dropped, three statements keep quotes, secondary extension attached twice, belongs-to name unreadable, map-only sibling collections) are pinned by the suite's gold files or are API-visible design. It does not decide the lexer's string scanning (escapes, concatenation) or comment handling.",
+         "Trusts goyacc (parser.go is regenerated and compared in the thorough tier) and the yacc reader in checker/internal/yacc; map-order analysis follows static calls three levels and is path-insensitive (five loops triaged with reasons).",
+         "DESIGN.md §2 C06"),
+
  "C10": ("integer-width / interval reasoning on every ssa.Convert between numeric types in package val and node/value.go: source range vs destination range, dominating comparison guards compared against the destination type's limits, integrality guard for float→integer, strconv bitSize; plus return-shape rule on val.Conv and a failed-result-used (inverted error test) rule",
          "Decides, for all values at once, that no numeric conversion in the conversion front end can change the number: each narrowing, sign-changing or float→integer conversion is dominated by guards that keep the operand inside the destination type (with the right constants) and, for floats, integral. Any unguarded conversion or wrong bound is reported with the function and types. Known findings: integers beyond 2^53 into decimal64. Not decided: which strings parse, union member choice, enum/bits/identityref lookups.",
          "Interval reasoning looks only at guards on the dominator chain of the same function (a guard in a caller does not discharge a callee conversion); one conversion is triaged by a domain invariant (UInt32 held in uint).",
